@@ -286,6 +286,28 @@ theorem slo_facts {t et : OTy} (h : vtyOf t = some (.slo et)) :
       · unfold indexTypeT; rw [hd]; simp only [hkind, Ty.elem?, hc]
     · rw [if_neg ho] at hse; cases hse
 
+theorem coll_shape {t : OTy} {V : VTy} (hV : vtyOf t = some V) (hc : V.isColl = true) :
+    ∃ ty, t = some ty ∧ ty.isPtr = false ∧ ty.kind = .slice := by
+  cases V with
+  | sl k =>
+    obtain ⟨ty, e, rfl, _, _, _, hp, hkind⟩ := sliceElemKind_facts (vtyOf_sl hV)
+    exact ⟨ty, rfl, hp, hkind⟩
+  | slo et =>
+    have hse : sloElem t = some et := by
+      unfold vtyOf at hV
+      (repeat' (split at hV)) <;> first | (cases hV; assumption) | cases hV
+    cases t with
+    | none => cases hse
+    | some ty =>
+      simp only [sloElem] at hse
+      cases hcore : ty.core <;> rw [hcore] at hse <;> simp only [] at hse <;> try (cases hse)
+      exact ⟨ty, rfl, by simp [Ty.isPtr, hcore], by simp [Ty.kind, hcore]⟩
+  | sc _ => cases hc
+  | anys => cases hc
+  | obj _ => cases hc
+  | mapAny => cases hc
+  | any => cases hc
+
 theorem coll_isArrayT {t : OTy} {V : VTy} (hV : vtyOf t = some V) (hc : V.isColl = true) : isArrayT t = true := by
   cases V with
   | sl k => exact (slice_type_facts (vtyOf_sl hV)).1
